@@ -677,7 +677,8 @@ def c06_worker(job):
             # parameters, read with the ORIGINAL parameters: the added pool must not replace or
             # shadow the pool of the original parameters
             upd = rng.choice([dict(miscleavage=0), dict(miscleavage=0), dict(miscleavage=1),
-                              dict(miscleavage=3), dict(min_length=9), dict(cleavage_rule='lysc')])
+                              dict(miscleavage=3), dict(min_length=9), dict(cleavage_rule='lysc'),
+                              dict(min_mw=1200.), dict(max_length=30), dict(max_length=18)])
             try:
                 update_index_dir(idx_dir, **upd)
                 upd_ok = True
@@ -704,6 +705,27 @@ def c06_worker(job):
                                for sq in w['peptides'] if sq in canon)
                     out['stats']['globally_filtered_peptides'] = \
                         out['stats'].get('globally_filtered_peptides', 0) + glob
+                # … and read with the ADDED parameters: index directory vs raw reference files
+                if 'cleavage_rule' not in upd:
+                    kw2 = dict(common_kw, **upd)
+                    r_raw = gen_ref.run_call_variant(case, tag='raw2', input_path=gvfs0, **kw2)
+                    r_idx = gen_ref.run_call_variant(case, tag='refidx3', index_dir=idx_dir,
+                                                     input_path=gvfs0, **kw2)
+                    out['stats']['updated_index_dir_new_param_runs'] = \
+                        out['stats'].get('updated_index_dir_new_param_runs', 0) + 1
+                    if r_raw.status == 'ok':
+                        if r_idx.status != 'ok':
+                            out['violations'].append((
+                                f'--index-dir run with the parameters added by updateIndex {upd} crashed: '
+                                f'{r_idx.status} {r_idx.error}', dict(desc0, variation=f'updateIndex {upd}, new parameters')))
+                        elif seqs(r_idx) != seqs(r_raw):
+                            lost = sorted(seqs(r_raw) - seqs(r_idx))
+                            gained = sorted(seqs(r_idx) - seqs(r_raw))
+                            out['violations'].append((
+                                f'peptide set with the reference from an index directory (pool added by updateIndex {upd}) '
+                                f'differs from the raw-files run with the same parameters: lost {lost[:3]} ({len(lost)}) '
+                                f'gained {gained[:3]} ({len(gained)})',
+                                dict(desc0, variation=f'updateIndex {upd}, new parameters')))
                     if glob:
                         out['stats']['updated_index_runs_with_global_filtering'] = \
                             out['stats'].get('updated_index_runs_with_global_filtering', 0) + 1
